@@ -29,7 +29,7 @@ class Prop(SeqProp):
     pid = "C10"
     model = "spanset"
     anchors = ["windpyutils/structures/span_set.py"]
-    quick_cases = 400
+    quick_cases = 1600
     thorough_cases = 6000
     rule = ("2-3 span collections per case (overlapping, nested, repeated, inverted, empty; ints and halves, int/float mixed) "
             "with relations drawn from all 4x4 combinations, both constructor forms and force_no_dup_check; then all four "
